@@ -1,7 +1,7 @@
 (* C06: Emit executed descriptor by descriptor, then acknowledged; bounded.
    Statements only: each theorem restates the full type of a lemma proved in coq/proofs and is closed by
    `exact`; Print Assumptions beneath.  Regenerate with bin/genprops.py after a lemma changes. *)
-From LLTD Require Import BlockFun PropsEmit.
+From LLTD Require Import BlockFun PropsEmit BufferLevel.
 
 Theorem C06_emit_sequence :
   forall (ctx : N) (c : pcfg) (g : gcfg) (mtu : N),
@@ -62,3 +62,98 @@ Theorem C06_transmission_bound :
   h_opc h = opcode_emit -> count_sends (snd (f_step ctx c g mtu s buf)) <= o ((mtu - 34) / 14) + 1.
 Proof. exact C06_bound. Qed.
 Print Assumptions C06_transmission_bound.
+
+Theorem C06_on_the_buffer_level_model :
+  forall (junk ctx : N) (c : pcfg) (g : gcfg) (mtu : N) (r : registry) (buf : list N)
+  (w : world) (bl : nat) (bb : N) (h : hdr),
+  c_mtu c = Some mtu ->
+  (576 <= mtu)%N ->
+  (mtu <= 9216)%N ->
+  (mtu <= c_rxsize c)%N ->
+  length buf = o (c_rxsize c) ->
+  BlockSafe.ledger_reg bl bb r w ->
+  parse_hdr buf = Some h ->
+  h_tos h = tos_discovery ->
+  h_opc h = opcode_emit ->
+  (1 <= h_w0 h)%N ->
+  (h_w0 h <= (mtu - 34) / 14)%N ->
+  let ds := spec_descs buf (o (h_w0 h)) in
+  Forall (fun d : emitee => d_type d = 0%N \/ d_type d = 1%N) ds ->
+  active (SystemRefinement.reg_state r ctx) = Some (h_rsrc h) ->
+  exists (r' : registry) (w' : world),
+  parse_frame no_fail no_fail junk ctx c g r buf w = Ok r' w' /\
+  w_trace w' =
+  rev
+  (flat_map (fun d : emitee => [Sleep (d_pause d); tx ctx (probe_frame c d)]) ds ++
+  [tx ctx
+  (header_bytes (own c) (mapp (SystemRefinement.reg_state r ctx)) (own c)
+  (h_rsrc h) (h_seq h) opcode_ack tos_discovery)]) ++ w_trace w /\
+  active (SystemRefinement.reg_state r' ctx) = Some (h_rsrc h) /\ BlockSafe.ledger_reg bl bb r' w'.
+Proof. exact C06_buffer_level. Qed.
+Print Assumptions C06_on_the_buffer_level_model.
+
+Theorem C06_any_kinds_buffer_level :
+  forall (junk ctx : N) (c : pcfg) (g : gcfg) (mtu : N) (r : registry) (buf : list N)
+  (w : world) (bl : nat) (bb : N) (h : hdr),
+  c_mtu c = Some mtu ->
+  (576 <= mtu)%N ->
+  (mtu <= 9216)%N ->
+  (mtu <= c_rxsize c)%N ->
+  length buf = o (c_rxsize c) ->
+  BlockSafe.ledger_reg bl bb r w ->
+  parse_hdr buf = Some h ->
+  h_tos h = tos_discovery ->
+  h_opc h = opcode_emit ->
+  (h_w0 h <= (mtu - 34) / 14)%N ->
+  let s1 := with_seq (set_active (SystemRefinement.reg_state r ctx) h) (h_seq h) in
+  let ds := spec_descs buf (o (h_w0 h)) in
+  exists (r' : registry) (w' : world),
+  parse_frame no_fail no_fail junk ctx c g r buf w = Ok r' w' /\
+  w_trace w' =
+  rev
+  (flat_map
+  (fun d : emitee => if kind_known d then [Sleep (d_pause d); tx ctx (probe_frame c d)] else [])
+  ds ++ (if ack_due ds then [tx ctx (ack_frame c s1)] else [])) ++ w_trace w /\
+  BlockSafe.ledger_reg bl bb r' w'.
+Proof. exact C06_buffer_level_any. Qed.
+Print Assumptions C06_any_kinds_buffer_level.
+
+Theorem C06_oversize_buffer_level :
+  forall (junk ctx : N) (c : pcfg) (g : gcfg) (mtu : N) (r : registry) (buf : list N)
+  (w : world) (bl : nat) (bb : N) (h : hdr),
+  c_mtu c = Some mtu ->
+  (576 <= mtu)%N ->
+  (mtu <= 9216)%N ->
+  (mtu <= c_rxsize c)%N ->
+  length buf = o (c_rxsize c) ->
+  BlockSafe.ledger_reg bl bb r w ->
+  parse_hdr buf = Some h ->
+  h_tos h = tos_discovery ->
+  h_opc h = opcode_emit ->
+  (h_w0 h > (mtu - 34) / 14)%N ->
+  exists (r' : registry) (w' : world),
+  parse_frame no_fail no_fail junk ctx c g r buf w = Ok r' w' /\
+  w_trace w' = w_trace w /\
+  (forall k : N, SystemRefinement.reg_state r' k = SystemRefinement.reg_state r k) /\
+  BlockSafe.ledger_reg bl bb r' w'.
+Proof. exact C06_buffer_level_nofit. Qed.
+Print Assumptions C06_oversize_buffer_level.
+
+Theorem C06_bound_buffer_level :
+  forall (junk ctx : N) (c : pcfg) (g : gcfg) (mtu : N) (r : registry) (buf : list N)
+  (w : world) (bl : nat) (bb : N) (h : hdr),
+  c_mtu c = Some mtu ->
+  (576 <= mtu)%N ->
+  (mtu <= 9216)%N ->
+  (mtu <= c_rxsize c)%N ->
+  length buf = o (c_rxsize c) ->
+  BlockSafe.ledger_reg bl bb r w ->
+  parse_hdr buf = Some h ->
+  h_tos h = tos_discovery ->
+  h_opc h = opcode_emit ->
+  exists (r' : registry) (w' : world) (acts : list action),
+  parse_frame no_fail no_fail junk ctx c g r buf w = Ok r' w' /\
+  w_trace w' = rev acts ++ w_trace w /\
+  count_sends acts <= o ((mtu - 34) / 14) + 1 /\ BlockSafe.ledger_reg bl bb r' w'.
+Proof. exact C06_buffer_level_bound. Qed.
+Print Assumptions C06_bound_buffer_level.
